@@ -157,10 +157,11 @@ def _chunk(payload):
         hexd = "0123456789abcdefABCDEFg"
         for q, tmpl in (('"', 'r = {{ "{}" }}'), ("'", "r = {{ '{}'..'z' }}")):
             for n in range(0, 4):
-                for digs in itertools.product("0aFg", repeat=n):
+                for digs in itertools.product("0aFg-+ _", repeat=n):
                     texts.append(tmpl.format("\\x" + "".join(digs)))
             for n in range(0, 8):
-                for digs in (("0",) * n, ("f",) * n, ("1",) + ("0",) * (n - 1) if n else (), ("1", "1") + ("0",) * (n - 2) if n > 1 else ()):
+                for digs in (("0",) * n, ("f",) * n, ("1",) + ("0",) * (n - 1) if n else (), ("1", "1") + ("0",) * (n - 2) if n > 1 else (),
+                             ("-",) + ("4",) * (n - 1) if n else (), ("+",) + ("4",) * (n - 1) if n else (), ("0", "x") + ("4",) * (n - 2) if n > 1 else (), ("4", "_") + ("1",) * (n - 2) if n > 1 else ()):
                     body = "".join(digs)
                     texts.append(tmpl.format("\\u{" + body + "}"))
                     texts.append(tmpl.format("\\u{" + body))
@@ -173,7 +174,13 @@ def _chunk(payload):
     if kind == "semantic":
         texts = ["", " ", "\n", "//c", "//! doc", "/// doc", "/*", "a", "a =", "a = {", "a = { b", "a = { b }", "a = { a }", "a = { b }\nb = { a }", "a = _{ b* }", "a = { undefined ~ x }",
                  "a = { \"x\" }\na = { \"y\" }", "ANY = { \"x\" }", "EOI = { \"x\" }", "a = { ASCII_DIGIT{0} }", "a = { \"x\"{3,2} }", "a = { (\"\")* }", "a = { PEEK[5..2] }", "a = { PEEK[-9..] }",
-                 "WHITESPACE = { \"\" }", "a = { #t = \"x\" }", "a = { PUSH(b) }", "a = { PUSH_LITERAL(b) }", "a = { !b }", "a = { s }\ns = _{ t }\nt = _{ s }",                  "a = { \"x\"{100000} }", "a = { PEEK[99999999999999999999..] }", "a = {" + "(" * 400 + "b" + ")" * 400 + "}", "a = {" + "!" * 500 + "b }", "a = { b" + "?" * 3 + " }"]
+                 "WHITESPACE = { \"\" }", "a = { #t = \"x\" }", "a = { PUSH(b) }", "a = { PUSH_LITERAL(b) }", "a = { !b }", "a = { s }\ns = _{ t }\nt = _{ s }",                  "a = { \"x\"{100000} }", "a = { PEEK[99999999999999999999..] }", "a = {" + "(" * 400 + "b" + ")" * 400 + "}", "a = {" + "!" * 500 + "b }", "a = { b" + "?" * 3 + " }",
+                 # beyond the interpreter's recursion budget: still a PestGrammarError, never RecursionError
+                 "a = {" + "(" * 700 + "b" + ")" * 700 + "}", "a = {" + "!" * 1500 + "b }", "a = {" + "&" * 1500 + "b }", "a = { b" + "?" * 2000 + " }", "a = {" + " ~ ".join(["b"] * 3000) + "}",
+                 "a = {" + " | ".join(['"b"'] * 3000) + "}", "a = { " + "PUSH(" * 600 + "b" + ")" * 600 + " }",
+                 # rule graphs with cycles (optimizer passes follow references)
+                 "b = { b }\na = @{ (!b ~ ANY)* }", "b = { c }\nc = { b | \"x\" }\na = @{ (!b ~ ANY)* }", "a = _{ \"x\" ~ b? }\nb = _{ \"y\" ~ a? }", "a = _{ a }", "a = _{ b }\nb = _{ c }\nc = _{ a ~ \"x\" }",
+                 "a = { (!a ~ ANY)* }", "s = _{ s | \"x\" }\na = { \"y\" | s }", "WHITESPACE = _{ WHITESPACE }", "COMMENT = _{ a }\na = _{ COMMENT }"]
         return check_texts(texts, "semantic")
     if kind == "huge-counts":
         texts = ['a = { "x"{99999999999999999999} }', 'a = { "x"{4294967296} }', 'a = { "x"{,4294967296} }', 'a = { "x"{4294967296,} }', 'a = { "x"{1,4294967296} }']
